@@ -83,17 +83,17 @@ type c09Mirror struct {
 }
 
 type c09Step struct {
-	Kind   string    `json:"kind"`
-	Trans  []c09Snap `json:"trans,omitempty"` // source snapshots at each TransitionEnd of this step
-	Src    c09Snap   `json:"src"`             // source after the step
-	Mir    c09Mirror `json:"mir"`             // mirror after the step (for client: when the call returned)
-	ResCli int       `json:"res_cli"`         // client ops: result returned by the NetworkMachine (1 exec 2 canceled 3 queued 0 n/a 9 timeout)
-	ResSrc int       `json:"res_src"`         // result the source produced
-	Timeout bool     `json:"timeout,omitempty"`
-	Ready  bool      `json:"ready"` // client Ready after the step
-	Pushes int       `json:"pushes"` // pushClient runs that reached storeLastPush during the step
-	Rehello bool     `json:"rehello,omitempty"` // drop: the client completed a new handshake and is Ready
-	SrvReady bool    `json:"srv_ready,omitempty"` // drop: the server is Ready again (within 1 s after the client)
+	Kind     string    `json:"kind"`
+	Trans    []c09Snap `json:"trans,omitempty"` // source snapshots at each TransitionEnd of this step
+	Src      c09Snap   `json:"src"`             // source after the step
+	Mir      c09Mirror `json:"mir"`             // mirror after the step (for client: when the call returned)
+	ResCli   int       `json:"res_cli"`         // client ops: result returned by the NetworkMachine (1 exec 2 canceled 3 queued 0 n/a 9 timeout)
+	ResSrc   int       `json:"res_src"`         // result the source produced
+	Timeout  bool      `json:"timeout,omitempty"`
+	Ready    bool      `json:"ready"`               // client Ready after the step
+	Pushes   int       `json:"pushes"`              // pushClient runs that reached storeLastPush during the step
+	Rehello  bool      `json:"rehello,omitempty"`   // drop: the client completed a new handshake and is Ready
+	SrvReady bool      `json:"srv_ready,omitempty"` // drop: the server is Ready again (within 1 s after the client)
 	// race: source transitions / snapshot / mirror while the reply was parked
 	Trans2 []c09Snap  `json:"trans2,omitempty"`
 	Mir2   *c09Mirror `json:"mir2,omitempty"`
@@ -102,20 +102,20 @@ type c09Step struct {
 }
 
 type c09Obs struct {
-	Err        string     `json:"err,omitempty"`
-	Tracked    []int      `json:"tracked"` // server tracked idx -> machine idx
-	CliNames   []string   `json:"cli_names"`
-	Hello      c09Mirror  `json:"hello"`
-	HelloSrc   c09Snap    `json:"hello_src"`
-	Steps      []c09Step  `json:"steps"`
-	FinalSrc   c09Snap    `json:"final_src"`
-	FinalMir   c09Mirror  `json:"final_mir"`
-	CliReady   bool       `json:"cli_ready"`
-	CliRetry   bool       `json:"cli_retrying"`
-	CliErr     bool       `json:"cli_exception"`
-	CliErrs    int        `json:"cli_err_count"`
+	Err         string    `json:"err,omitempty"`
+	Tracked     []int     `json:"tracked"` // server tracked idx -> machine idx
+	CliNames    []string  `json:"cli_names"`
+	Hello       c09Mirror `json:"hello"`
+	HelloSrc    c09Snap   `json:"hello_src"`
+	Steps       []c09Step `json:"steps"`
+	FinalSrc    c09Snap   `json:"final_src"`
+	FinalMir    c09Mirror `json:"final_mir"`
+	CliReady    bool      `json:"cli_ready"`
+	CliRetry    bool      `json:"cli_retrying"`
+	CliErr      bool      `json:"cli_exception"`
+	CliErrs     int       `json:"cli_err_count"`
 	FinalPushes int       `json:"final_pushes"`
-	Stuck      bool       `json:"stuck"` // a call through the client did not return in time
+	Stuck       bool      `json:"stuck"` // a call through the client did not return in time
 }
 
 // ---------------------------------------------------------------- proxy
@@ -232,9 +232,11 @@ func (s *c09Source) rec(r am.Result) am.Result {
 	s.mx.Unlock()
 	return r
 }
-func (s *c09Source) Add(states am.S, args am.A) am.Result    { return s.rec(s.Machine.Add(states, args)) }
-func (s *c09Source) Remove(states am.S, args am.A) am.Result { return s.rec(s.Machine.Remove(states, args)) }
-func (s *c09Source) Set(states am.S, args am.A) am.Result    { return s.rec(s.Machine.Set(states, args)) }
+func (s *c09Source) Add(states am.S, args am.A) am.Result { return s.rec(s.Machine.Add(states, args)) }
+func (s *c09Source) Remove(states am.S, args am.A) am.Result {
+	return s.rec(s.Machine.Remove(states, args))
+}
+func (s *c09Source) Set(states am.S, args am.A) am.Result { return s.rec(s.Machine.Set(states, args)) }
 func (s *c09Source) take() (am.Result, int) {
 	s.mx.Lock()
 	defer s.mx.Unlock()
